@@ -1749,6 +1749,21 @@ class Interp:
             c_ = concrete(to_node(a_))
             if c_ is not None: return c_ != 0
             return self.truth(X.cmp('!=', to_node(a_), X.ZERO), e, fr)
+        if nm in ('any', 'all') and args and isinstance(args[0], Arr):
+            # a whole array of known (small) shape: element by element, short-circuiting like any / all do (each undecided element test is a fork)
+            a_ = args[0]
+            if a_.shape is None or not all(isinstance(n_, int) for n_ in a_.shape):
+                raise AnalysisError(f'{fr.mod.where(e)}: np.{nm} of an array of unknown extent')
+            import itertools as _it
+            for idx in _it.product(*[range(n_) for n_ in a_.shape]):
+                v_ = a_.get(idx if len(idx) > 1 else idx[0])
+                if isinstance(v_, bool): t_ = v_
+                else:
+                    c_ = concrete(to_node(v_))
+                    t_ = (c_ != 0) if c_ is not None else self.truth(X.cmp('!=', to_node(v_), X.ZERO), e, fr)
+                if nm == 'any' and t_: return True
+                if nm == 'all' and not t_: return False
+            return nm == 'all'
         if nm in ('any', 'all'):
             vals = [self.truth(v, e, fr) for v in args[0]]
             return any(vals) if nm == 'any' else all(vals)
